@@ -56,25 +56,38 @@ Track(p, kind) ==
      /\ res' = Append(res, [owner |-> p, tracker |-> t, kind |-> kind, exists |-> TRUE, registered |-> TRUE])
   /\ last' = <<"track", p, kind>> /\ UNCHANGED <<parent, alive, swept>>
 
-\* the owning object is collected in its process: the semaphore is unlinked and unregistered
+\* the owning object is collected in its process: the semaphore is unlinked, then unregistered -- a tracked operation,
+\* which (re)starts a tracker for that process if its tracker is dead
 Collect(i) ==
   /\ Tick /\ i \in 1..Len(res) /\ res[i].kind = "sem" /\ res[i].exists /\ alive[res[i].owner] = "alive"
+  /\ LET p == res[i].owner IN
+     /\ (NeedNew(p) => tStarted < MaxT)
+     /\ LET t == Ensure(p) IN
+        /\ trk' = [trk EXCEPT ![p] = t]
+        /\ tStarted' = IF NeedNew(p) THEN tStarted + 1 ELSE tStarted
+        /\ tAlive' = [tAlive EXCEPT ![t] = TRUE]
+        /\ holders' = [holders EXCEPT ![t] = @ \cup {p}]
   /\ res' = [res EXCEPT ![i] = [@ EXCEPT !.exists = FALSE, !.registered = FALSE]]
-  /\ last' = <<"collect", i>> /\ UNCHANGED <<parent, alive, trk, tAlive, tStarted, holders, swept>>
+  /\ last' = <<"collect", i>> /\ UNCHANGED <<parent, alive, swept>>
 
 \* a process ends: "exit" runs finalizers (its own semaphores are unlinked), "kill" does not
 Die(p, how) ==
   /\ Tick /\ alive[p] = "alive"
   /\ alive' = [alive EXCEPT ![p] = "dead"]
-  /\ LET h == [t \in 1..MaxT |-> holders[t] \ {p}]
+  /\ LET ownSems == {i \in 1..Len(res) : res[i].owner = p /\ res[i].kind = "sem" /\ res[i].exists}
+         \* a normal end runs the finalizers of p's semaphores (unlink + unregister): with a dead tracker this starts a
+         \* new tracker, which ends as soon as p is gone
+         restart == how = "exit" /\ ownSems # {} /\ NeedNew(p) /\ tStarted < MaxT
+         h == [t \in 1..MaxT |-> holders[t] \ {p}]
          rs1 == IF how = "exit"
-                THEN [i \in 1..Len(res) |-> IF res[i].owner = p /\ res[i].kind = "sem" /\ res[i].exists
-                                             THEN [res[i] EXCEPT !.exists = FALSE, !.registered = FALSE] ELSE res[i]]
+                THEN [i \in 1..Len(res) |-> IF i \in ownSems THEN [res[i] EXCEPT !.exists = FALSE, !.registered = FALSE] ELSE res[i]]
                 ELSE res
          F[t \in 0..MaxT] == IF t = 0 THEN rs1 ELSE SweepIfLast(h, t, F[t - 1])
      IN /\ holders' = h /\ res' = F[MaxT]
-        /\ swept' = [t \in 1..MaxT |-> swept[t] \/ (h[t] = {} /\ tAlive[t] /\ holders[t] # {})]
-  /\ last' = <<"die", p, how>> /\ UNCHANGED <<parent, trk, tAlive, tStarted>>
+        /\ tStarted' = IF restart THEN tStarted + 1 ELSE tStarted
+        /\ tAlive' = IF restart THEN [tAlive EXCEPT ![tStarted + 1] = TRUE] ELSE tAlive
+        /\ swept' = [t \in 1..MaxT |-> swept[t] \/ (h[t] = {} /\ tAlive[t] /\ holders[t] # {}) \/ (restart /\ t = tStarted + 1)]
+  /\ last' = <<"die", p, how>> /\ UNCHANGED <<parent, trk>>
 
 SignalTracker(t, sig) == /\ Tick /\ tAlive[t] /\ last' = <<"signal", t, sig>>
                          /\ UNCHANGED <<parent, alive, trk, tAlive, tStarted, holders, swept, res>>
